@@ -163,6 +163,10 @@ def load(R):
                modifies=FS_MODS)
     R.external("os.makedirs", types={"arg0": TStr}, raises={"OSError+": []}, ensures=[],
                notes="creates directories only; directories are not part of the ghost state (see fs.exists)")
+    R.external("fs.unlink", types={"arg0": TStr},
+               raises={"OSError+": ["FS_SAME()"]},
+               ensures=["old(arg0 in ghost('files'))", "arg0 not in ghost('files')", "arg0 not in ghost('closed')", "OTHERS_SAME(arg0)"],
+               modifies=FS_MODS, notes="removes one regular file in one step, or raises OSError leaving everything unchanged (also when the file does not exist)")
     R.external("fs.exists", returns=TBool, types={"arg0": TStr},
                ensures=["implies(arg0 in ghost('files'), result)", "implies(pkind(arg0) == 0 or pkind(arg0) == 1 or pkind(arg0) == 2, result == (arg0 in ghost('files')))"],
                notes="a link / version-file / temporary path is never a directory (path algebra); for other paths only 'a regular file exists' is known")
@@ -193,6 +197,7 @@ def load(R):
     R.obj_method_hooks["open"] = lambda ex, recv, args, kwargs: do_open(ex, ufs["py_str"](recv.t), const_mode(ex, args, kwargs, 0))
     R.obj_method_hooks["exists"] = lambda ex, recv, args, kwargs: call_ext(ex, "fs.exists", VStr(ufs["py_str"](recv.t)))
     R.constructors["os.path.exists"] = lambda ex, args, kwargs: call_ext(ex, "fs.exists", VStr(as_str(ex, args[0])))
+    R.constructors["os.unlink"] = lambda ex, args, kwargs: call_ext(ex, "fs.unlink", VStr(as_str(ex, args[0])))
     R.constructors["os.path.isfile"] = lambda ex, args, kwargs: call_ext(ex, "fs.isfile", VStr(as_str(ex, args[0])))
     R.obj_method_hooks["is_file"] = lambda ex, recv, args, kwargs: call_ext(ex, "fs.isfile", VStr(ufs["py_str"](recv.t)))
     R.obj_method_hooks["write"] = lambda ex, recv, args, kwargs: call_ext(ex, "fs.write", recv, VStr(as_str(ex, args[0])))
@@ -237,6 +242,20 @@ def load(R):
                modifies=FS_MODS,
                labels={"vacuity_guard": True, "entry_axioms": PATH_AX, "step_invariant": STEP + ["LINKS_SAME_BUT(LP(self, key.key))"]})
 
+    # removing a link (forgetting the unversioned name of a key; NullStrategy.store does it for a None result under an override key): no other link and no
+    # version file changes, at every step
+    R.contract(F + "_delete_non_versioned_link", prop="C08", types={"self": FDS, "key": DKey}, ghost_params=FS_GHOSTS,
+               requires=["GOOD(self)"],
+               ensures=["GOOD(self)", "KEPT()", "LINKS_SAME_BUT(LP(self, key.key))", "LP(self, key.key) not in ghost('files')"],
+               raises={"OSError+": ["GOOD(self)", "KEPT()", "LINKS_SAME()"]},
+               modifies=FS_MODS,
+               labels={"vacuity_guard": True, "entry_axioms": PATH_AX, "step_invariant": STEP + ["LINKS_SAME_BUT(LP(self, key.key))"]})
+    R.contract(F + "delete_nonversioned_key", prop="C08", types={"self": FDS, "key": DKey}, ghost_params=FS_GHOSTS,
+               requires=["GOOD(self)"],
+               ensures=["GOOD(self)", "KEPT()", "LINKS_SAME_BUT(LP(self, key.key))", "LP(self, key.key) not in ghost('files')"],
+               raises={"OSError+": ["GOOD(self)", "KEPT()", "LINKS_SAME()"]},
+               modifies=FS_MODS,
+               labels={"vacuity_guard": True, "entry_axioms": PATH_AX, "step_invariant": STEP + ["LINKS_SAME_BUT(LP(self, key.key))"]})
     R.contract(F + "_read_non_versioned_link", prop="C08", types={"self": FDS, "key": DKey}, returns=TObj("nn:Path"), ghost_params=FS_GHOSTS,
                when_raises={"OSError+": "LP(self, key.key) not in ghost('files')"},
                ensures=["py_str(result) == path_norm(ghost('files')[LP(self, key.key)])", "pkind(LP(self, key.key)) == 0", "lkey(LP(self, key.key)) == esc(key.key)"],
